@@ -353,11 +353,25 @@ def runAsync (c : Config) (ctx : Option Ctx) :
 /-! ## Concurrent view of `DynamicConfig`
 
 Every field is its own `Arc<Atomic*>` accessed with `Ordering::Relaxed`.  A cell is modelled by
-its complete modification order (newest first, never empty); a **load may return any value of
-that history** chosen by the scheduler — an over-approximation of C11 relaxed coherence (and of
-sequential consistency, where it returns the head).  Tasks are setters (one store each;
-`set_conn_timeout_ms` clamps locally first and returns the clamped value) and snapshot readers
-(six independent loads, in any order, interleaved arbitrarily with other tasks' steps). -/
+its complete modification order (newest first, never empty).  A store appends to the modification
+order of its cell.  A **load may return any entry of that history that is not older than what the
+loading task has already seen of that cell** (`Conc.seen`): per task and per cell the model keeps the
+position, in the cell's modification order, of the newest entry the task has stored or loaded, and a
+load returns an entry at or above it.  This is exactly what C++/Rust relaxed atomics guarantee PER
+LOCATION — a total modification order per atomic object plus read-read and write-read coherence
+(CoRR / CoWR; CoWW / CoRW hold because stores append) — and nothing more: no ordering between
+DIFFERENT cells is assumed (a task may see a new `mode` and a stale `timeout`), and no
+happens-before edges between tasks.  It over-approximates sequential consistency (where every load
+returns the head).  Not representable in this interleaving semantics: load-buffering executions (a
+load observing a store that a later step performs); they cannot affect per-location statements.
+(Round 4: before, a load could return ANY entry of the history, so "a successful setter is visible in
+the same task's next snapshot" was not even true of the model.)
+
+Tasks are setters (one store each; `set_conn_timeout_ms` clamps locally first and returns the
+clamped value) and snapshot readers (six independent loads, in any order, interleaved arbitrarily
+with other tasks' steps); `get_status` is `snapshot()` followed by pure formatting.  A task is one
+thread of control making API calls one after the other on its clone of `DynamicConfig`; coherence
+persists across its calls. -/
 
 structure Cells where
   mode : List Nat
@@ -384,6 +398,38 @@ inductive Field where
   | mode | quality | stall | minInFlight | ackStale | timeout
   deriving DecidableEq
 
+/-- A value of any cell (uniform view of the six differently typed atomics). -/
+inductive Val where
+  | nat (n : Nat)
+  | bool (b : Bool)
+  | int (i : Int)
+  deriving DecidableEq, Repr
+
+/-- The modification order of cell `f`, newest first, as uniform values. -/
+def Cells.view (c : Cells) : Field → List Val
+  | .mode => c.mode.map .nat
+  | .quality => c.quality.map .bool
+  | .stall => c.stall.map .bool
+  | .minInFlight => c.minInFlight.map .int
+  | .ackStale => c.ackStale.map .nat
+  | .timeout => c.timeout.map .nat
+
+/-- Number of entries of the modification order of cell `f`. -/
+def Cells.len (c : Cells) (f : Field) : Nat := (c.view f).length
+
+/-- The entry at POSITION `p` of the modification order of cell `f`: 0 is the initial value, positions
+count stores in the order they hit the cell (so they never change once assigned). -/
+def Cells.at? (c : Cells) (f : Field) (p : Nat) : Option Val := (c.view f).reverse[p]?
+
+/-- The value a snapshot under construction holds for field `f`, if loaded. -/
+def Partial.at? (p : Partial) : Field → Option Val
+  | .mode => p.mode.map .nat
+  | .quality => p.quality.map .bool
+  | .stall => p.stall.map .bool
+  | .minInFlight => p.minInFlight.map .int
+  | .ackStale => p.ackStale.map .nat
+  | .timeout => p.timeout.map .nat
+
 /-- API calls a task can make on its clone of `DynamicConfig`. -/
 inductive Op where
   | setMode (m : Mode)
@@ -391,6 +437,14 @@ inductive Op where
   | setStall (b : Bool)
   | setTimeout (ms : Nat)
   | snapshot
+
+/-- The cell a setter stores to and the value it stores (`set_conn_timeout_ms` stores the clamp). -/
+def Op.target : Op → Option (Field × Val)
+  | .setMode m => some (.mode, .nat m.asU8)
+  | .setQuality b => some (.quality, .bool b)
+  | .setStall b => some (.stall, .bool b)
+  | .setTimeout ms => some (.timeout, .nat (clampU64 ms Cfg.CONN_TIMEOUT_MS_MIN Cfg.CONN_TIMEOUT_MS_MAX))
+  | .snapshot => none
 
 /-- Per-task control state. -/
 inductive Task where
@@ -406,7 +460,9 @@ inductive Act where
   | call (t : Nat) (op : Op)
   /-- task `t` (in a setter) performs its store and returns -/
   | store (t : Nat)
-  /-- task `t` (in `snapshot`) loads field `f`, observing entry `k` of that cell's history -/
+  /-- task `t` (in `snapshot`) loads field `f`, observing entry `k` of that cell's history
+  (index into the newest-first list: 0 = the latest store); enabled only if that entry is not older
+  than what `t` has already seen of `f` -/
   | load (t : Nat) (f : Field) (k : Nat)
   /-- task `t` has loaded all six fields and returns the `ConfigSnapshot` -/
   | ret (t : Nat)
@@ -419,11 +475,18 @@ inductive Event where
 structure Conc where
   cells : Cells
   tasks : Nat → Task
+  /-- coherence view: `seen t f` = position (see `Cells.at?`) of the newest entry of cell `f` that
+  task `t` has stored or loaded so far; 0 (the initial value) for a task that has not touched `f`. -/
+  seen : Nat → Field → Nat
 
-def Conc.init (c : Config) : Conc := { cells := Cells.ofConfig c, tasks := fun _ => .idle }
+def Conc.init (c : Config) : Conc :=
+  { cells := Cells.ofConfig c, tasks := fun _ => .idle, seen := fun _ _ => 0 }
 
 def setTask (tasks : Nat → Task) (t : Nat) (x : Task) : Nat → Task :=
   fun i => if i = t then x else tasks i
+
+def setSeen (seen : Nat → Field → Nat) (t : Nat) (f : Field) (p : Nat) : Nat → Field → Nat :=
+  fun i g => if i = t ∧ g = f then p else seen i g
 
 def Partial.complete (p : Partial) : Option Snapshot :=
   match p.mode, p.quality, p.stall, p.minInFlight, p.ackStale, p.timeout with
@@ -446,31 +509,43 @@ def Conc.step (s : Conc) (a : Act) : Option (Conc × Option Event) :=
     match s.tasks t with
     | .storing op =>
       let idle := setTask s.tasks t .idle
+      -- the new entry gets the next position of its cell's modification order, and the storing
+      -- task has now seen it (write-read coherence)
       match op with
       | .setMode m =>
-        some ({ cells := { s.cells with mode := m.asU8 :: s.cells.mode }, tasks := idle }, none)
+        some ({ cells := { s.cells with mode := m.asU8 :: s.cells.mode }, tasks := idle,
+                seen := setSeen s.seen t .mode (s.cells.len .mode) }, none)
       | .setQuality b =>
-        some ({ cells := { s.cells with quality := b :: s.cells.quality }, tasks := idle }, none)
+        some ({ cells := { s.cells with quality := b :: s.cells.quality }, tasks := idle,
+                seen := setSeen s.seen t .quality (s.cells.len .quality) }, none)
       | .setStall b =>
-        some ({ cells := { s.cells with stall := b :: s.cells.stall }, tasks := idle }, none)
+        some ({ cells := { s.cells with stall := b :: s.cells.stall }, tasks := idle,
+                seen := setSeen s.seen t .stall (s.cells.len .stall) }, none)
       | .setTimeout ms =>
         let applied := clampU64 ms Cfg.CONN_TIMEOUT_MS_MIN Cfg.CONN_TIMEOUT_MS_MAX
-        some ({ cells := { s.cells with timeout := applied :: s.cells.timeout }, tasks := idle },
+        some ({ cells := { s.cells with timeout := applied :: s.cells.timeout }, tasks := idle,
+                seen := setSeen s.seen t .timeout (s.cells.len .timeout) },
               some (.timeoutApplied t ms applied))
       | .snapshot => none
     | _ => none
   | .load t f k =>
     match s.tasks t with
     | .snapping p =>
-      let upd (p' : Partial) : Option (Conc × Option Event) :=
-        some ({ s with tasks := setTask s.tasks t (.snapping p') }, none)
-      match f with
-      | .mode => (s.cells.mode[k]?).bind fun v => upd { p with mode := some v }
-      | .quality => (s.cells.quality[k]?).bind fun v => upd { p with quality := some v }
-      | .stall => (s.cells.stall[k]?).bind fun v => upd { p with stall := some v }
-      | .minInFlight => (s.cells.minInFlight[k]?).bind fun v => upd { p with minInFlight := some v }
-      | .ackStale => (s.cells.ackStale[k]?).bind fun v => upd { p with ackStale := some v }
-      | .timeout => (s.cells.timeout[k]?).bind fun v => upd { p with timeout := some v }
+      -- position of the entry at index `k` of the newest-first history
+      let pos := s.cells.len f - 1 - k
+      -- read-read / write-read coherence: not older than what this task has already seen of `f`
+      if s.seen t f ≤ pos then
+        let upd (p' : Partial) : Option (Conc × Option Event) :=
+          some ({ s with tasks := setTask s.tasks t (.snapping p'),
+                         seen := setSeen s.seen t f pos }, none)
+        match f with
+        | .mode => (s.cells.mode[k]?).bind fun v => upd { p with mode := some v }
+        | .quality => (s.cells.quality[k]?).bind fun v => upd { p with quality := some v }
+        | .stall => (s.cells.stall[k]?).bind fun v => upd { p with stall := some v }
+        | .minInFlight => (s.cells.minInFlight[k]?).bind fun v => upd { p with minInFlight := some v }
+        | .ackStale => (s.cells.ackStale[k]?).bind fun v => upd { p with ackStale := some v }
+        | .timeout => (s.cells.timeout[k]?).bind fun v => upd { p with timeout := some v }
+      else none
     | _ => none
   | .ret t =>
     match s.tasks t with
